@@ -23,9 +23,11 @@ theorem crash_buckets (hc : c.Legal) (hU : Univ c.kind U) (hI : Inv c U s spec n
     (order : List Nat) (k : Nat) (early : Bool) :
     ∃ m' d', storeFlush s.m s.d (fixOrder order s.m.inext.keys) = some (m', d') ∧
       Inv c U ⟨s.cfg, m', d'⟩ spec n B ∧ XInv c ⟨s.cfg, m', d'⟩ ∧
-      ∃ dr mr, openStoreR c (crashImage s.d (appendStream s.d d') k early) = (dr, .ok mr) ∧
-        mr.kind = c.kind ∧ mr.bits = c.bits ∧
-        ∀ b, BucketSame c.kind mr dr mOld dOld b ∨ BucketSame c.kind mr dr m' d' b := by
+      ∃ dr mr, ∃ newB : List Nat,
+        openStoreR c (crashImage s.d (appendStream s.d d') k early) = (dr, .ok mr) ∧
+        RecInv c mr dr n B ∧
+        ∀ b, (b ∉ newB → BucketSame c.kind mr dr mOld dOld b) ∧
+          (b ∈ newB → BucketSame c.kind mr dr m' d' b) := by
   obtain ⟨m1, d1, m2, d2, lg, p1, i1, hI2, hX2, hin, hpn, _, _, _, hd2, _⟩ :=
     flush_parts hU hI hX hD hn hB order
   have hfree : d2.free = s.d.free := by
@@ -33,7 +35,7 @@ theorem crash_buckets (hc : c.Legal) (hU : Univ c.kind U) (hI : Inv c U s spec n
   by_cases ho : outstanding s.m = true
   · obtain ⟨fl, fr, f1, f2⟩ := storeFlush_out p1 i1 ho
     rw [hfree] at f1
-    obtain ⟨m1', d1', m2', d2', p1', i1', dr, mr, r1, r2, r3, r4⟩ :=
+    obtain ⟨m1', d1', m2', d2', p1', i1', dr, mr, newB, r1, r2, r4⟩ :=
       crash_core hc hU hI hX hD hn hB hold hAold order fr f1 k early
     rw [p1] at p1'
     simp only [Option.some.injEq, Prod.mk.injEq] at p1'
@@ -41,10 +43,10 @@ theorem crash_buckets (hc : c.Legal) (hU : Univ c.kind U) (hI : Inv c U s spec n
     rw [i1] at i1'
     simp only [Prod.mk.injEq] at i1'
     obtain ⟨rfl, rfl⟩ := i1'
-    exact ⟨_, _, f2, hI2.frame_ff fl fr d2.snap, hX2.frame_ff fl fr d2.snap, dr, mr, r1, r2, r3, r4⟩
+    exact ⟨_, _, f2, hI2.frame_ff fl fr d2.snap, hX2.frame_ff fl fr d2.snap, dr, mr, newB, r1, r2, r4⟩
   · obtain ⟨f1, _, _, f4, f5⟩ :=
       storeFlush_idle (d := s.d) (order := fixOrder order s.m.inext.keys) ho
-    obtain ⟨m1', d1', m2', d2', p1', i1', dr, mr, r1, r2, r3, r4⟩ :=
+    obtain ⟨m1', d1', m2', d2', p1', i1', dr, mr, newB, r1, r2, r4⟩ :=
       crash_core hc hU hI hX hD hn hB hold hAold order s.d.free (Or.inl rfl) k early
     rw [f4] at p1'
     simp only [Option.some.injEq, Prod.mk.injEq] at p1'
@@ -52,7 +54,7 @@ theorem crash_buckets (hc : c.Legal) (hU : Univ c.kind U) (hI : Inv c U s spec n
     rw [f5] at i1'
     simp only [Prod.mk.injEq] at i1'
     obtain ⟨rfl, rfl⟩ := i1'
-    exact ⟨_, _, f1, hI, hX, dr, mr, r1, r2, r3, r4⟩
+    exact ⟨_, _, f1, hI, hX, dr, mr, newB, r1, r2, r4⟩
 
 /-- Get on the recovered store: old or new per key (for every byte string), stated against the maps
     for the keys of the universe, and malformed keys are refused as ever -/
@@ -69,8 +71,15 @@ theorem crash_recovers (hc : c.Legal) (hU : Univ c.kind U) (hI : Inv c U s spec 
           (storeGet m' d' key).2 = getResOf (Spec.get spec dig)) ∧
         (∀ key e, keyClass c.kind key = .error e → (storeGet mr dr key).2 = .err e) := by
   obtain ⟨dOld, mOld, hold, hAold⟩ := hDur
-  obtain ⟨m', d', f1, hI', hX', dr, mr, r1, r2, r3, r4⟩ :=
+  obtain ⟨m', d', f1, hI', hX', dr, mr, newB, r1, hRec, r4'⟩ :=
     crash_buckets hc hU hI hX hD hn hB hold hAold order k early
+  have r2 : mr.kind = c.kind := hRec.kind
+  have r3 : mr.bits = c.bits := hRec.bits
+  have r4 : ∀ b, BucketSame c.kind mr dr mOld dOld b ∨ BucketSame c.kind mr dr m' d' b := by
+    intro b
+    by_cases hb : b ∈ newB
+    · exact Or.inr ((r4' b).2 hb)
+    · exact Or.inl ((r4' b).1 hb)
   -- the old recovered state, explicitly enough to know its kind and bits
   have hOk : mOld.kind = c.kind ∧ mOld.bits = c.bits := by
     obtain ⟨_, _, _, _, _, _, _, _, _, _, _, _, _, _, _, _, _, _, _, _, hl, _, _⟩ :=
